@@ -22,6 +22,7 @@ import (
 	"strconv"
 	"strings"
 	"sync"
+	"sync/atomic"
 	"time"
 
 	"github.com/cloudwego/eino/components/tool"
@@ -84,12 +85,12 @@ type ToolSpec struct {
 }
 
 type Node struct {
-	Key   string     `json:"key"`
-	Kind  string     `json:"kind"`           // lam | sub | tools
-	Flav  string     `json:"flav,omitempty"` // i | s | c | t   (the lambda's only native paradigm)
-	Beh   string     `json:"beh,omitempty"`  // ok | fail | panic | item | rerun | cancel | convpanic | prefail | postfail (the node's state pre / post handler returns Err; the body succeeds)
-	Err   *ErrSpec   `json:"err,omitempty"`
-	ID    int        `json:"id,omitempty"` // panic payload
+	Key  string   `json:"key"`
+	Kind string   `json:"kind"`           // lam | sub | tools
+	Flav string   `json:"flav,omitempty"` // i | s | c | t   (the lambda's only native paradigm)
+	Beh  string   `json:"beh,omitempty"`  // ok | fail | panic | item | rerun | cancel | convpanic | prefail | postfail (the node's state pre / post handler returns Err; the body succeeds)
+	Err  *ErrSpec `json:"err,omitempty"`
+	ID   int      `json:"id,omitempty"` // panic payload
 	// Pos: where the fault sits in the node's output stream (item: 0 = [chunk, error item], 1 = [error item,
 	// chunk], 2 = [error item] alone; convpanic: 0 = the convert function panics at the first chunk, 1 = at
 	// the second of two).  Whoever reads the stream to its end finds the same: not an input of the model.
@@ -101,7 +102,7 @@ type Node struct {
 type Graph struct {
 	Dag    bool      `json:"dag,omitempty"`
 	Chain  bool      `json:"chain,omitempty"` // built with compose.NewChain (every stage is a single node, no branch)
-	WF     bool      `json:"wf,omitempty"` // built as a compose.Workflow (all-predecessor, eager scheduling: tasks are collected one by one)
+	WF     bool      `json:"wf,omitempty"`    // built as a compose.Workflow (all-predecessor, eager scheduling: tasks are collected one by one)
 	Stages [][]*Node `json:"stages"`
 	Loop   bool      `json:"loop,omitempty"` // last stage (a single node) branches back to the first stage, never to END
 	Max    int       `json:"max,omitempty"`  // WithMaxRunSteps (0 = default)
@@ -120,6 +121,7 @@ type Case struct {
 	Deadline     bool     `json:"deadline,omitempty"`      // ... because its deadline has passed (ctx.Err() is context.DeadlineExceeded, not context.Canceled)
 	InErr        *ErrSpec `json:"in_err,omitempty"`        // collect/transform: the input stream carries this error item
 	InPos        int      `json:"in_pos,omitempty"`        // ... 0 = after the chunk, 1 = before it, 2 = alone
+	Resume       bool     `json:"resume,omitempty"`        // the graph is compiled with a checkpoint store; while a call ends in an interrupt (a node returned InterruptAndRerun: it succeeds when it is run again) the run is resumed from its checkpoint; the observation is the final one
 	Twice        bool     `json:"twice,omitempty"`         // the compiled runnable is called a second time after the first call has returned (same input, fresh context): whatever the first run left behind — tasks still in flight after a failure, recovered panics — must not show in the second
 	RtMax        int      `json:"rt_max,omitempty"`        // call option compose.WithRuntimeMaxSteps (top graph in Pregel mode only): overrides the compiled limit of the top graph, not of nested graphs
 	Fwd          *FwdSpec `json:"fwd,omitempty"`           // a forwarder case (fwd.go): G / Par unused
@@ -223,6 +225,29 @@ type env struct {
 	mu     sync.Mutex
 	log    []execRec
 	cancel context.CancelFunc
+	// resumed cases: the nodes that have asked for their rerun already (they succeed from then on)
+	resume    bool
+	rerunDone map[string]bool
+}
+
+// memStore is the checkpoint store of a resumed case.
+type memStore struct {
+	mu sync.Mutex
+	m  map[string][]byte
+}
+
+func (s *memStore) Get(ctx context.Context, id string) ([]byte, bool, error) {
+	s.mu.Lock()
+	defer s.mu.Unlock()
+	b, ok := s.m[id]
+	return b, ok, nil
+}
+
+func (s *memStore) Set(ctx context.Context, id string, b []byte) error {
+	s.mu.Lock()
+	defer s.mu.Unlock()
+	s.m[id] = append([]byte(nil), b...)
+	return nil
 }
 
 func (e *env) rec(path []string, what string) {
@@ -263,6 +288,22 @@ func boom(id int) {
 		down(k - 1)
 	}
 	down((id * 7) % 45)
+}
+
+// recoverAll is lib.Recover that also sees a panic with a nil value (recover() returns nil for it under
+// this module's go directive): a function that neither returned nor panicked with a value panicked with nil.
+func recoverAll(f func()) (p any) {
+	finished := false
+	defer func() {
+		if r := recover(); r != nil {
+			p = r
+		} else if !finished {
+			p = "panic called with nil argument"
+		}
+	}()
+	f()
+	finished = true
+	return nil
 }
 
 // nilPanic: the panic with this id has a nil value; it carries no id, its payload in the model (and
@@ -314,6 +355,17 @@ func callTime(e *env, n *Node, path []string) error {
 		e.rec(path, "panic")
 		boom(n.ID)
 	case "rerun":
+		if e.resume {
+			key := strings.Join(path, "/")
+			e.mu.Lock()
+			again := e.rerunDone[key]
+			e.rerunDone[key] = true
+			e.mu.Unlock()
+			if again {
+				e.rec(path, "ok")
+				return nil
+			}
+		}
 		e.rec(path, "rerun")
 		return compose.InterruptAndRerun
 	case "cancel":
@@ -740,7 +792,7 @@ func buildGraph(e *env, g *Graph, prefix []string) (compilable, error) {
 // ---------------------------------------------------------------- observation
 
 type Proj struct {
-	Found      bool     `json:"found"`              // errors.As finds the path-carrying wrapper
+	Found      bool     `json:"found"`               // errors.As finds the path-carrying wrapper
 	Outermost  bool     `json:"outermost,omitempty"` // ... and it is the returned error itself
 	Typ        string   `json:"typ,omitempty"`
 	NodePath   []string `json:"node_path,omitempty"`
@@ -860,6 +912,8 @@ func inputStream(c *Case) *schema.StreamReader[M] {
 
 const watchdog = 10 * time.Second
 
+var cpSeq atomic.Int64
+
 var fatalMarker = func() string {
 	d := os.Getenv("VERIF_RUNDIR")
 	if d == "" {
@@ -949,7 +1003,12 @@ func runOnce(c *Case) (Obs, *Obs) {
 	if err != nil {
 		return Obs{Class: "build", Info: err.Error()}, nil
 	}
-	r, err := cg.Compile(context.Background(), compileOpts(c.G)...)
+	copts := compileOpts(c.G)
+	if c.Resume {
+		e.resume = true
+		copts = append(copts, compose.WithCheckPointStore(&memStore{m: map[string][]byte{}}))
+	}
+	r, err := cg.Compile(context.Background(), copts...)
 	if err != nil {
 		return Obs{Class: "build", Info: err.Error()}, nil
 	}
@@ -969,6 +1028,7 @@ func callOnce(c *Case, e *env, r compose.Runnable[M, M]) Obs {
 	defer cancel()
 	e.mu.Lock()
 	e.cancel = cancel
+	e.rerunDone = map[string]bool{}
 	e.mu.Unlock()
 	if c.CancelBefore {
 		if c.Deadline {
@@ -993,42 +1053,54 @@ func callOnce(c *Case, e *env, r compose.Runnable[M, M]) Obs {
 		callErr, itemErr error
 		pan              any
 	}
-	done := make(chan out, 1)
 	var opts []compose.Option
 	if c.RtMax > 0 {
 		opts = append(opts, compose.WithRuntimeMaxSteps(c.RtMax))
 	}
-	go func() {
-		var o out
-		o.pan = lib.Recover(func() {
-			switch c.Par {
-			case "invoke":
-				_, o.callErr = r.Invoke(ctx, M{"in": "x"}, opts...)
-			case "stream":
-				var sr *schema.StreamReader[M]
-				sr, o.callErr = r.Stream(ctx, M{"in": "x"}, opts...)
-				if o.callErr == nil {
-					o.itemErr = drain(sr)
-				}
-			case "collect":
-				_, o.callErr = r.Collect(ctx, inputStream(c), opts...)
-			case "transform":
-				var sr *schema.StreamReader[M]
-				sr, o.callErr = r.Transform(ctx, inputStream(c), opts...)
-				if o.callErr == nil {
-					o.itemErr = drain(sr)
-				}
-			default:
-				panic("harness: bad paradigm " + c.Par)
-			}
-		})
-		done <- o
-	}()
+	if c.Resume {
+		opts = append(opts, compose.WithCheckPointID(fmt.Sprintf("cp-%d", cpSeq.Add(1))))
+	}
 	var o out
-	select {
-	case o = <-done:
-	case <-time.After(watchdog):
-		return Obs{Class: "hang", Log: e.snapshot()}
+	for attempt := 0; ; attempt++ {
+		done := make(chan out, 1)
+		go func() {
+			var o out
+			o.pan = recoverAll(func() {
+				switch c.Par {
+				case "invoke":
+					_, o.callErr = r.Invoke(ctx, M{"in": "x"}, opts...)
+				case "stream":
+					var sr *schema.StreamReader[M]
+					sr, o.callErr = r.Stream(ctx, M{"in": "x"}, opts...)
+					if o.callErr == nil {
+						o.itemErr = drain(sr)
+					}
+				case "collect":
+					_, o.callErr = r.Collect(ctx, inputStream(c), opts...)
+				case "transform":
+					var sr *schema.StreamReader[M]
+					sr, o.callErr = r.Transform(ctx, inputStream(c), opts...)
+					if o.callErr == nil {
+						o.itemErr = drain(sr)
+					}
+				default:
+					panic("harness: bad paradigm " + c.Par)
+				}
+			})
+			done <- o
+		}()
+		select {
+		case o = <-done:
+		case <-time.After(watchdog):
+			return Obs{Class: "hang", Log: e.snapshot()}
+		}
+		// an interrupted run of a resumed case is continued from its checkpoint (same id, same input)
+		if c.Resume && o.pan == nil && o.callErr != nil && attempt < 8 {
+			if _, isInt := compose.ExtractInterruptInfo(o.callErr); isInt {
+				continue
+			}
+		}
+		break
 	}
 	switch {
 	case o.pan != nil:
